@@ -1,4 +1,5 @@
 """C10 — a drawing call's effect is independent of earlier calls."""
+import dt
 import ras
 import engine
 
@@ -17,4 +18,4 @@ META = {
 
 
 def run(ctx):
-    engine.run_rules(ctx, [ras.r10_1, ras.r10_2, ras.r10_3, ras.r10_4])
+    engine.run_rules(ctx, [ras.r10_1, ras.r10_2, ras.r10_3, ras.r10_4, dt.r06_3, dt.r06_5, dt.r05_3])
